@@ -159,17 +159,18 @@ template <class T, class S0, class S1, class S2> struct MU : UniverseBase {
             case K_TENSOR: do_assign(op, d, X); break;
             case K_EXPR: if (op == 4) do_assign(op, d, X * (T)2); else switch (rk % 4) { case 0: do_assign(op, d, X * (T)2 + Y); break; case 1: do_assign(op, d, X - Y); break; case 2: do_assign(op, d, X * Y); break; default: do_assign(op, d, (X + Y) * (T)2 - X); } break;
             case K_SELF_EXPR: switch (rk % 3) { case 0: d = d * (T)2 - X; break; case 1: d = X + d; break; default: d += d; } break;
-            case K_METHOD: switch (mv) { case 0: d.fill(c); break; case 1: d.zeros(); break; case 2: d.ones(); break; case 3: d.iota(c); break; default: d.reverse(); } break;
+            case K_METHOD: switch ((int)(st.a[A_RHS] % 6)) { case 0: d.fill(c); break; case 1: d.zeros(); break; case 2: d.ones(); break; case 3: d.iota(c); break; case 4: d.arange(c); break; default: d.reverse(); } break;
             case K_ELEM: { auto &e = elem_at(d, ix, rank_t<R>{}); switch (op) { case 0: e = c; break; case 1: e += c; break; case 2: e -= c; break; case 3: e *= c; break; default: e /= c; } } break;
             case K_FIXVIEW: fixview_op(op, (int)(rk % 12), d, X, sh); break;
             case K_DYNVIEW: dynview_op(op, rg, c, d, X, sh); break;
-            case K_REDUCE: rd[0] = d.sum(); rd[1] = sum(d + X); rd[2] = (T)(all_of(d == d) ? 1 : 0); rd[3] = inner(d, X); break;
+            case K_REDUCE: rd[0] = d.sum(); rd[1] = sum(d + X); rd[2] = (T)(all_of(d == d) ? 1 : 0); rd[3] = inner(d, X); rd[4] = min(d); rd[5] = max(d);
+                           rd[6] = std::is_floating_point<T>::value ? d.product() : (T)0; { auto cz = d.template cast<double>(); rd[7] = (T)cz.data()[(size_t)(st.a[A_VAL] % (uint32_t)SZ)]; } break;
             case K_READ_EXPR: { Ten r = d * (T)2 + X; memcpy(rd, r.data(), sizeof(T) * SZ); } break;
             case K_MATMUL: matmul_read(d, rd, st.a[A_VAL], sh); break;
             default: break;
             }
         };
-        if (kind == K_REDUCE) { nrd = 4; writes = false; } else if (kind == K_READ_EXPR) { nrd = (size_t)SZ; writes = false; } else if (kind == K_MATMUL) { nrd = mm_len<Sh>::value; writes = false; }
+        if (kind == K_REDUCE) { nrd = 8; writes = false; } else if (kind == K_READ_EXPR) { nrd = (size_t)SZ; writes = false; } else if (kind == K_MATMUL) { nrd = mm_len<Sh>::value; writes = false; }
         for (size_t i = 0; i < nrd; ++i) { rd_h[i] = 0; rd_t[i] = 0; }
         if (kind == K_MAP_COPY) {
             // h = other map of the SAME type over another buffer: on owning tensors `a = b` copies the values
